@@ -16,10 +16,29 @@
 //!                       replay item by item in the Coq model)
 //!      | dispn a | dbgn a  (same output line as `count a`: the number of '1' characters of the rendering, after
 //!                       checking inside the executor that it has 64*N characters and character i is '1' iff `test(i)`)
+//!      | fdisp a m k | fdbg a m k   (same output line as `count a`.  Register a is rendered with Display / Debug into a sink
+//!                       that does not behave like a String:  m = 0 bounded buffer of k' bytes that refuses a chunk that does
+//!                       not fit (and everything after it), m = 1 bounded buffer that keeps the part that fits and then
+//!                       reports fmt::Error, m = 2 bounded buffer that keeps the part that fits and then PANICS (caught),
+//!                       m = 3 a sink that itself renders another bitset (the complement) with format! inside every
+//!                       write_str, m = 4 rendering on a freshly spawned thread (first into a failing sink, then normally),
+//!                       m = 5 plain format!/to_string.  k selects the room k': 0 -> 0, 1 -> 1, 2 -> half, 3 -> len-1,
+//!                       4 -> len (fits).  Checked inside the executor: what the sink accepted is a prefix of the
+//!                       rendering given by test(i); Ok is returned only if the sink holds all of it; Err only if the sink
+//!                       refused something; a panic only from the panicking sink.  The point of the op is what happens
+//!                       AFTERWARDS: later `disp`/`dbg` of any register are ordinary observations decided by Coq)
+//!      | xr M v x d m k  (same output line as `clone 0 0`, i.e. `u`: a Bitset<M> of ANOTHER capacity M in {1,2,3,20,65},
+//!                       from_u64(x) (v = 0) or its complement (v = 1), rendered on this thread with Display (d = 0) /
+//!                       Debug (d = 1) into sink m with room k as above)
+//!      | iterp a k     (same output line as `iter a`; before that, for_each / fold / position / find / all are run with
+//!                       a closure that panics at the k-th item (caught): the panic must happen iff there are more than k
+//!                       items, and the listing afterwards is the ordinary one)
+//! Every line is executed on a thread of its own, so a history never sees thread-local leftovers of an earlier line.
 //! output: one token per op: `u` (done), `P` (panicked), `b0`/`b1`, `n<k>`,
 //!         `l<e>:<i,j,...>` (iterator items; e = 1 iff two more next() calls gave None), `s<string>`,
 //!         `X<tag>`: two public ways of asking the same question disagreed (`==` vs `!=`, `{}` vs `to_string()`,
-//!         `next()` vs `count()`, ...): never what the model predicts.
+//!         `next()` vs `count()`, a failing sink that received something else than a prefix of the rendering, ...):
+//!         never what the model predicts.
 use rlib_bitset::bits_iter::BitsIter;
 use rlib_bitset::Bitset;
 use vh::{guarded, p};
@@ -272,6 +291,250 @@ fn fmt_consistency<const N: usize>(b: &Bitset<N>, s: &str, debug: bool) -> Resul
     Ok(())
 }
 
+/// what the rendering must be according to `test`
+fn truth<const M: usize>(b: &Bitset<M>) -> Vec<u8> {
+    (0..64 * M).map(|x| if b.test(x) { b'1' } else { b'0' }).collect()
+}
+
+/// a text sink with room for `cap` bytes.  kind 0: a chunk that does not fit is refused as a whole, and so is everything
+/// after it; kind 1: the part that fits is kept, then fmt::Error; kind 2: the part that fits is kept, then a panic
+struct Bounded {
+    buf: String,
+    cap: usize,
+    kind: usize,
+    refused: bool,
+}
+impl std::fmt::Write for Bounded {
+    fn write_str(&mut self, s: &str) -> std::fmt::Result {
+        let room = self.cap - self.buf.len();
+        if !self.refused && s.len() <= room {
+            self.buf.push_str(s);
+            return Ok(());
+        }
+        if !self.refused && self.kind != 0 {
+            let mut end = 0;
+            for (i, c) in s.char_indices() {
+                if i + c.len_utf8() > room {
+                    break;
+                }
+                end = i + c.len_utf8();
+            }
+            self.buf.push_str(&s[..end]);
+        }
+        self.refused = true;
+        if self.kind == 2 {
+            panic!("sink failure");
+        }
+        Err(std::fmt::Error)
+    }
+}
+
+/// a sink that renders another bitset while it is being written to (a Display impl must not hold anything shared
+/// across the call into the sink)
+struct Reentrant<'a, const M: usize> {
+    buf: String,
+    other: &'a Bitset<M>,
+    want_other: &'a [u8],
+    calls: usize,
+    bad: bool,
+}
+impl<'a, const M: usize> std::fmt::Write for Reentrant<'a, M> {
+    fn write_str(&mut self, s: &str) -> std::fmt::Result {
+        self.calls += 1;
+        if self.calls <= 3 {
+            let inner = if self.calls % 2 == 1 { format!("{}", self.other) } else { format!("{:?}", self.other) };
+            if inner.as_bytes() != self.want_other {
+                self.bad = true;
+            }
+        }
+        self.buf.push_str(s);
+        Ok(())
+    }
+}
+
+fn render_into<const M: usize, W: std::fmt::Write>(w: &mut W, b: &Bitset<M>, debug: bool) -> std::fmt::Result {
+    if debug {
+        write!(w, "{:?}", b)
+    } else {
+        write!(w, "{}", b)
+    }
+}
+
+/// one rendering of `b` into a sink that is not a String (see the header: `fdisp`).  Ok = everything the executor can
+/// check about this one call held; what later renderings show is observed by later ops.
+fn abnormal<const M: usize>(b: &Bitset<M>, debug: bool, mode: usize, ksel: usize) -> Result<(), &'static str> {
+    let want = truth(b);
+    let len = want.len();
+    let room = |ksel: usize| match ksel {
+        0 => 0,
+        1 => 1.min(len),
+        2 => len / 2,
+        3 => len.saturating_sub(1),
+        _ => len,
+    };
+    match mode {
+        0 | 1 | 2 => {
+            let mut sink = Bounded { buf: String::new(), cap: room(ksel), kind: mode, refused: false };
+            let res = guarded(|| render_into(&mut sink, b, debug));
+            if !want.starts_with(sink.buf.as_bytes()) {
+                return Err("sink-prefix");
+            }
+            match res {
+                Some(Ok(())) => {
+                    if sink.refused || sink.buf.len() != len {
+                        return Err("sink-ok-but-incomplete");
+                    }
+                }
+                Some(Err(_)) => {
+                    if !sink.refused {
+                        return Err("sink-spurious-error");
+                    }
+                }
+                None => {
+                    if mode != 2 || !sink.refused {
+                        return Err("sink-panic");
+                    }
+                }
+            }
+            if sink.refused && len <= sink.cap {
+                return Err("sink-overrun");
+            }
+            Ok(())
+        }
+        3 => {
+            let other = !b.clone();
+            let want_other = truth(&other);
+            let mut sink = Reentrant { buf: String::new(), other: &other, want_other: &want_other, calls: 0, bad: false };
+            match guarded(|| render_into(&mut sink, b, debug)) {
+                Some(Ok(())) => {}
+                Some(Err(_)) => return Err("sink-reentrant-error"),
+                None => return Err("sink-reentrant-panic"),
+            }
+            if sink.bad {
+                return Err("sink-reentrant-inner");
+            }
+            if sink.buf.as_bytes() != &want[..] {
+                return Err("sink-reentrant-outer");
+            }
+            Ok(())
+        }
+        4 => {
+            let c = b.clone();
+            let cap = room(ksel);
+            let h = std::thread::Builder::new().stack_size(16 << 20).spawn(move || {
+                let mut sink = Bounded { buf: String::new(), cap, kind: 1, refused: false };
+                let first = render_into(&mut sink, &c, debug);
+                let e = Bitset::<M>::new();
+                (first.is_ok(), sink.refused, sink.buf, format!("{}", e), format!("{:?}", c), c.to_string())
+            });
+            let (ok, refused, buf, empty, s1, s2) = match h.map(|h| h.join()) {
+                Ok(Ok(v)) => v,
+                _ => return Err("thread-panic"),
+            };
+            if ok == refused || !want.starts_with(buf.as_bytes()) || (ok && buf.len() != len) {
+                return Err("thread-sink");
+            }
+            if empty.len() != len || empty.bytes().any(|ch| ch != b'0') {
+                return Err("thread-empty");
+            }
+            if s1.as_bytes() != &want[..] || s2.as_bytes() != &want[..] {
+                return Err("thread-render");
+            }
+            Ok(())
+        }
+        _ => {
+            let s = if debug { format!("{:?}", b) } else { format!("{}", b) };
+            if s.as_bytes() != &want[..] {
+                return Err("fmt-vs-test");
+            }
+            fmt_consistency(b, &s, debug)
+        }
+    }
+}
+
+/// `xr`: a bitset of another capacity rendered on the same thread
+fn foreign(m: usize, v: usize, pat: u64, debug: bool, mode: usize, ksel: usize) -> Result<(), &'static str> {
+    fn go<const M: usize>(v: usize, pat: u64, debug: bool, mode: usize, ksel: usize) -> Result<(), &'static str> {
+        let mut b = Bitset::<M>::from_u64(pat);
+        if v == 1 {
+            b = !b;
+        }
+        abnormal(&b, debug, mode, ksel)
+    }
+    match m {
+        1 => go::<1>(v, pat, debug, mode, ksel),
+        2 => go::<2>(v, pat, debug, mode, ksel),
+        3 => go::<3>(v, pat, debug, mode, ksel),
+        20 => go::<20>(v, pat, debug, mode, ksel),
+        65 => go::<65>(v, pat, debug, mode, ksel),
+        other => {
+            eprintln!("harness: unsupported foreign capacity {}", other);
+            std::process::exit(3)
+        }
+    }
+}
+
+/// consumers whose closure panics at the k-th item: the panic happens iff there are more than k items
+fn iter_panics<const N: usize>(b: &Bitset<N>, cnt: usize, k: usize) -> Result<(), &'static str> {
+    let expect_panic = cnt > k;
+    let r1 = guarded(|| {
+        let mut seen = 0usize;
+        b.iter_bits().for_each(|_| {
+            if seen == k {
+                panic!("consumer failure");
+            }
+            seen += 1;
+        });
+        seen
+    });
+    let r2 = guarded(|| {
+        b.iter_bits().fold(0usize, |s, _| {
+            if s == k {
+                panic!("consumer failure");
+            }
+            s + 1
+        })
+    });
+    let r3 = guarded(|| {
+        let mut seen = 0usize;
+        let p = b.iter_bits().position(|_| {
+            if seen == k {
+                panic!("consumer failure");
+            }
+            seen += 1;
+            false
+        });
+        if p.is_some() {
+            usize::MAX
+        } else {
+            seen
+        }
+    });
+    let r4 = guarded(|| {
+        let mut seen = 0usize;
+        let all = b.iter_bits().all(|v| {
+            if seen == k {
+                panic!("consumer failure");
+            }
+            seen += 1;
+            v < 64 * N
+        });
+        if all {
+            seen
+        } else {
+            usize::MAX
+        }
+    });
+    for r in [r1, r2, r3, r4] {
+        match r {
+            None if expect_panic => {}
+            Some(c) if !expect_panic && c == cnt => {}
+            _ => return Err("consumer-panic"),
+        }
+    }
+    Ok(())
+}
+
 fn run<const N: usize>(t: &[&str]) -> String {
     let mut r: Vec<Bitset<N>> = (0..4).map(|_| Bitset::<N>::new()).collect();
     let mut out: Vec<String> = Vec::new();
@@ -472,6 +735,43 @@ fn run<const N: usize>(t: &[&str]) -> String {
                     r[a1].clone_from(&src);
                 }))
             }
+            "fdisp" | "fdbg" => {
+                let (m, k): (usize, usize) = (p(t[i + 2]), p(t[i + 3]));
+                i += 4;
+                match guarded(|| abnormal(&r[a1], op == "fdbg", m, k).map(|_| r[a1].count())) {
+                    Some(Ok(c)) => format!("n{}", c),
+                    Some(Err(tag)) => format!("X{}", tag),
+                    None => "P".to_string(),
+                }
+            }
+            "xr" => {
+                let (v, x, d, m, k): (usize, u64, usize, usize, usize) =
+                    (p(t[i + 2]), p(t[i + 3]), p(t[i + 4]), p(t[i + 5]), p(t[i + 6]));
+                i += 7;
+                match guarded(|| foreign(a1, v, x, d == 1, m, k)) {
+                    Some(Ok(())) => "u".to_string(),
+                    Some(Err(tag)) => format!("Xforeign-{}", tag),
+                    None => "P".to_string(),
+                }
+            }
+            "iterp" => {
+                let k: usize = p(t[i + 2]);
+                i += 3;
+                match guarded(|| {
+                    let (items, e) = drain(&mut r[a1].iter_bits(), bound);
+                    if items.len() > bound {
+                        return (items, e, Ok(()));
+                    }
+                    let c = iter_panics(&r[a1], items.len(), k);
+                    let (again, e2) = drain(&mut r[a1].iter_bits(), bound);
+                    let c = c.and(if again == items && e2 == e { Ok(()) } else { Err("after-consumer-panic") });
+                    (again, e2, c)
+                }) {
+                    Some((items, e, Ok(()))) => list_tok(&items, e),
+                    Some((_, _, Err(tag))) => format!("Xiter-{}", tag),
+                    None => "P".to_string(),
+                }
+            }
             "disp" | "dbg" => {
                 i += 2;
                 let debug = op == "dbg";
@@ -499,8 +799,8 @@ fn run<const N: usize>(t: &[&str]) -> String {
     }
 }
 
-fn main() {
-    vh::serve(|t| match t[0] {
+fn dispatch(t: &[&str]) -> String {
+    match t[0] {
         "0" => run::<0>(t),
         "1" => run::<1>(t),
         "2" => run::<2>(t),
@@ -523,6 +823,22 @@ fn main() {
         other => {
             eprintln!("harness: unsupported N {}", other);
             std::process::exit(3)
+        }
+    }
+}
+
+fn main() {
+    // one thread per line: thread-local state of the library (if any) cannot travel from one case to the next, so every
+    // case and every replay means the same whatever ran before it
+    vh::serve(|t| {
+        let owned: Vec<String> = t.iter().map(|x| x.to_string()).collect();
+        let h = std::thread::Builder::new().stack_size(64 << 20).spawn(move || {
+            let refs: Vec<&str> = owned.iter().map(|x| x.as_str()).collect();
+            dispatch(&refs)
+        });
+        match h.map(|h| h.join()) {
+            Ok(Ok(s)) => s,
+            _ => "P".to_string(),
         }
     });
 }
